@@ -15,6 +15,7 @@ import (
 	"math/rand"
 	"net"
 	"os"
+	"runtime/debug"
 	"runtime/pprof"
 	"sort"
 	"strings"
@@ -176,6 +177,7 @@ func uniq(a []int) []int {
 
 func main() {
 	r := vlib.Start("C01")
+	debug.SetGCPercent(400)
 	dir, clean := vlib.Scratch("c01")
 	dnsfix.Quiet(dir)
 	db.SetRandForVerif(rand.New(&detSource{}))
@@ -186,14 +188,9 @@ func main() {
 		defer pprof.StopCPUProfile()
 		stopProf = pprof.StopCPUProfile
 	}
-	maxItems := r.Pick(2, 3)                          // optional items per file
-	maxItemsSkelB := r.Pick(1, 2)                     // with the composite-form skeleton
-	rdbMaxItems := r.Pick(2, 3)                       // RocksDB backends are exercised on files up to this size
-	if s := os.Getenv("C01_RDB_MAX_ITEMS"); s != "" { // development knobs; recorded in the evidence when used
-		fmt.Sscan(s, &rdbMaxItems)
-		r.Note("C01_RDB_MAX_ITEMS=%s", s)
-	}
-	if s := os.Getenv("C01_MAX_ITEMS"); s != "" {
+	maxItems := r.Pick(2, 3)                      // optional items per file
+	maxItemsSkelB := 1                            // with the composite-form skeleton
+	if s := os.Getenv("C01_MAX_ITEMS"); s != "" { // development knob; recorded in the evidence when used
 		fmt.Sscan(s, &maxItems)
 		if maxItemsSkelB > maxItems {
 			maxItemsSkelB = maxItems
@@ -201,6 +198,34 @@ func main() {
 		r.Note("C01_MAX_ITEMS=%s", s)
 		r.Exhaustive = false
 	}
+	// A RocksDB compile+open costs 1000x a CDB one. CDB gets every file. The v2 key
+	// layout (own search code, db/answer_sorted.go) gets every file one item
+	// smaller and, at full size, the files made of non-auxiliary items only; the
+	// v1 layout (shares the search code of db/answer.go with CDB, only the driver
+	// differs) gets every file one item smaller. Every sub-file of a file run on a
+	// backend is run on that backend too, so minimality stays exact.
+	anySize := map[dnsfix.Backend]int{dnsfix.CDB: maxItems, dnsfix.RDBv1: maxItems - 1, dnsfix.RDBv2: maxItems - 1}
+	coreSize := map[dnsfix.Backend]int{dnsfix.CDB: maxItems, dnsfix.RDBv1: maxItems - 1, dnsfix.RDBv2: maxItems}
+	runsOn := func(f *file, b dnsfix.Backend) bool {
+		if len(f.items) <= anySize[b] {
+			return true
+		}
+		if len(f.items) > coreSize[b] {
+			return false
+		}
+		for _, i := range f.items {
+			if alphabet[i].Aux {
+				return false
+			}
+		}
+		return true
+	}
+
+	var details *os.File
+	if p := os.Getenv("C01_DETAILS"); p != "" { // development knob: dump every violation's detail
+		details, _ = os.Create(p)
+	}
+	var detailsMu sync.Mutex
 
 	all := []*Item{}
 	for i := range skeletons {
@@ -225,7 +250,23 @@ func main() {
 		allNames[i] = i
 	}
 	fullUniverseItems := r.Pick(1, 2)
-	nq := len(names) * len(qtypes)
+	if s := os.Getenv("C01_ONLY_ITEMS"); s != "" { // development knob: restrict the alphabet to the listed item ids
+		keep := map[string]bool{}
+		for _, id := range strings.Split(s, ",") {
+			keep[id] = true
+		}
+		var sub []Item
+		for _, it := range alphabet {
+			if keep[it.ID] {
+				sub = append(sub, it)
+			}
+		}
+		fullAlphabet := alphabet
+		alphabet = sub
+		defer func() { alphabet = fullAlphabet }()
+		r.Note("C01_ONLY_ITEMS=%s", s)
+		r.Exhaustive = false
+	}
 
 	// files by size class
 	classes := make([][]*file, maxItems+1)
@@ -275,15 +316,15 @@ func main() {
 				sort.Ints(asked)
 				asked = uniq(asked)
 			}
-			exp := make([]*Expect, nq*len(clients))
+			exp := make([]*Expect, len(asked)*len(qtypes)*len(clients))
 			var cc [5]int64
 			var wc, lc, nontriv int64
-			for _, ni := range asked {
+			for ai, ni := range asked {
 				name := names[ni]
 				for ti, qt := range qtypes {
 					for ci := range clients {
 						e := w.Resolve(name, qt, clients[ci].nip)
-						exp[(ni*len(qtypes)+ti)*len(clients)+ci] = e
+						exp[(ai*len(qtypes)+ti)*len(clients)+ci] = e
 						cc[e.Class]++
 						if e.Class != exRefused && e.Class != exNXDomain {
 							nontriv++
@@ -306,9 +347,9 @@ func main() {
 				atomic.AddInt64(&classCount[i], cc[i])
 			}
 			buf := make([]byte, 4096)
-			pick := (asked[(fi*7919+k*131)%len(asked)]*len(qtypes)+fi%len(qtypes))*len(clients) + fi%len(clients) // the sampled (query, client) of this file
+			pick := (fi*7919 + k*131) % len(exp) // the sampled (query, client) of this file
 			for _, b := range dnsfix.Backends {
-				if b != dnsfix.CDB && len(f.items) > rdbMaxItems {
+				if !runsOn(f, b) {
 					continue
 				}
 				path, err := dnsfix.Compile(dir, b, []byte(text))
@@ -328,11 +369,11 @@ func main() {
 				}
 				atomic.AddInt64(&nDBs, 1)
 				var served, failing, minimal int64
-				for _, ni := range asked {
+				for ai, ni := range asked {
 					name := names[ni]
 					for ti, qt := range qtypes {
 						for ci := range clients {
-							idx := (ni*len(qtypes)+ti)*len(clients) + ci
+							idx := (ai*len(qtypes)+ti)*len(clients) + ci
 							e := exp[idx]
 							res := h.Serve(query(name, qt), clients[ci].ip, false, maxAnswer)
 							served++
@@ -351,6 +392,11 @@ func main() {
 							minimal++
 							fp := fmt.Sprintf("answer/%s/%s/%s/%s/%s/%s", b, kind, ids, name, tname(qt), clients[ci].ip)
 							detail := fmt.Sprintf("%s\nquery %s %s from %s on %s\nexpected: %s\nobserved: %s\ndata file:\n%s", v.detail, name, tname(qt), clients[ci].ip, b, describe(e, name), dnsfix.CanonResult(res), text)
+							if details != nil {
+								detailsMu.Lock()
+								fmt.Fprintf(details, "== %s\n%s\n", fp, detail)
+								detailsMu.Unlock()
+							}
 							r.Violate(fp, detail, map[string]interface{}{"data": text, "items": ids, "backend": b.String(), "qname": name, "qtype": tname(qt), "client": clients[ci].ip,
 								"max_answer": maxAnswer, "kind": v.kind, "expected": describe(e, name), "observed": dnsfix.CanonResult(res)})
 						}
@@ -380,7 +426,16 @@ func main() {
 	r.Set("alphabet_items", len(alphabet))
 	r.Set("max_items_per_file", maxItems)
 	r.Set("max_items_per_file_composite_skeleton", maxItemsSkelB)
-	r.Set("rocksdb_max_items_per_file", rdbMaxItems)
+	r.Set("rdb_v1_max_items_per_file", anySize[dnsfix.RDBv1])
+	r.Set("rdb_v2_max_items_per_file", anySize[dnsfix.RDBv2])
+	r.Set("rdb_v2_max_items_per_file_of_non_auxiliary_items", coreSize[dnsfix.RDBv2])
+	nAux := 0
+	for _, it := range alphabet {
+		if it.Aux {
+			nAux++
+		}
+	}
+	r.Set("auxiliary_items", nAux)
 	r.Set("names", len(names))
 	r.Set("full_universe_for_files_up_to_items", fullUniverseItems)
 	r.Set("qtypes", len(qtypes))
@@ -396,7 +451,7 @@ func main() {
 	r.Set("expected_for_located_client", locatedCount)
 	r.Set("failing_comparisons", nFailing)
 	r.Set("minimal_failing_cases", nMinimal)
-	r.Set("rule", fmt.Sprintf("data file = skeleton (apex example.com SOA+NS as Z+& lines, or as one '.' line for files of <=%d items; resolver maps Mexample.com/M*.example.com -> m1, %%aa 10/8, %%bb 192.168/16) + every subset of <=%d of %d alphabet items (each item = text lines + hand-written structured records); each file compiled by the real compilers for cdb, rdb-v1, rdb-v2 (RocksDB for files of <=%d items), opened by the real handler and asked every name of the closed universe (%d names: owners, targets, ancestors, a fresh sibling nx under every node, under-wildcard names, two case variants; files of more than %d items are asked the sub-universe closed over their own records plus 6 byte-order-neighbour probes and the case variants, so every sub-file of a reported case was asked the same query) x %d qtypes x %d clients with maxAnswer=%d; each response compared with the reference interpreter. states = databases compiled and opened; transitions = evaluations = queries served and compared; distinct_nontrivial = (file, query, client) triples whose prescribed outcome is a referral, a NODATA or a positive answer (i.e. neither REFUSED nor NXDOMAIN); a failing case is reported only if no sub-file fails the same (backend, query, client, kind)", maxItemsSkelB, maxItems, len(alphabet), rdbMaxItems, len(names), fullUniverseItems, len(qtypes), len(clients), maxAnswer))
+	r.Set("rule", fmt.Sprintf("data file = skeleton (apex example.com SOA+NS as Z+& lines, or as one '.' line for files of <=%d items; resolver maps Mexample.com/M*.example.com -> m1, %%aa 10/8, %%bb 192.168/16) + every subset of <=%d of %d alphabet items (each item = text lines + hand-written structured records); each file compiled by the real compilers for cdb (all files), rdb-v1 (files of <=%d items) and rdb-v2 (files of <=%d items, plus the files of %d items none of which is one of the %d auxiliary items, i.e. items whose key shape (owner, wildcard flag, location) repeats another item's and that play no part in additional-section processing), opened by the real handler and asked every name of the closed universe (%d names: owners, targets, ancestors, a fresh sibling nx under every node, under-wildcard names, two case variants; files of more than %d items are asked the sub-universe closed over their own records plus 6 byte-order-neighbour probes and the case variants, so every sub-file of a reported case was asked the same query) x %d qtypes x %d clients with maxAnswer=%d; each response compared with the reference interpreter. states = databases compiled and opened; transitions = evaluations = queries served and compared; distinct_nontrivial = (file, query, client) triples whose prescribed outcome is a referral, a NODATA or a positive answer (i.e. neither REFUSED nor NXDOMAIN); a failing case is reported only if no sub-file fails the same (backend, query, client, kind)", maxItemsSkelB, maxItems, len(alphabet), anySize[dnsfix.RDBv1], anySize[dnsfix.RDBv2], coreSize[dnsfix.RDBv2], nAux, len(names), fullUniverseItems, len(qtypes), len(clients), maxAnswer))
 	r.Assume = []string{
 		"the weighted-selection random source is replaced by a deterministic one that never draws the edge value 0 (C11 covers the draws); all address records have weight 1 and maxAnswer >= candidates, so the answer set is independent of the draws",
 		"not compared (statement silent): additional section of positive answers beyond soundness, RR class, order within a section, DS at a delegation, ANY beyond answer being a sub-multiset of the visible records of the name, TXT chunk boundaries",
